@@ -5,6 +5,9 @@
 #include "nodes/loop/control.h"
 #include "psc/error.h"
 #include "psc/scope/block.h"
+#ifdef PSEUDOENGINE2_VERIF
+#include "verif.h"
+#endif
 
 using namespace PSC;
 
@@ -75,12 +78,18 @@ void Block::runNodeREPL(Node *node, PSC::Context &ctx) {
 
 void Block::_run(PSC::Context &ctx) {
     for (Node *node : nodes) {
+#ifdef PSEUDOENGINE2_VERIF
+        PE2Verif::tick(node->getToken(), ctx);
+#endif
         node->evaluate(ctx);
     }
 }
 
 void Block::_runREPL(PSC::Context &ctx) {
     for (Node *node : nodes) {
+#ifdef PSEUDOENGINE2_VERIF
+        PE2Verif::tick(node->getToken(), ctx);
+#endif
         runNodeREPL(node, ctx);
     }
 }
